@@ -51,6 +51,9 @@ class VFSZip(VFS_Real):
 
     def save_cache(self) -> bool:
         cache_filename = self.get_cache_filename()
+        if not self.chain.iswritable(cache_filename):
+            # e.g. an archive inside another archive: nowhere to keep an index
+            return False
         cache_fspath = self.chain.getfspath(cache_filename)
         try:
             with shelve.open(cache_fspath, "n") as db:
@@ -63,6 +66,9 @@ class VFSZip(VFS_Real):
 
     def init_cache(self) -> None:
         cache_filename = self.get_cache_filename()
+        if not self.chain.iswritable(cache_filename):
+            self.populate_cache()
+            return
         zipfile_mtime = self.chain.stat(self.zipfilename)[stat.ST_MTIME]
         try:
             cache_mtime = self.chain.stat(cache_filename)[stat.ST_MTIME]
@@ -382,8 +388,12 @@ class ZIPHandler(BaseHandler):
         while True:
 
             if pattern.search(basename) and self.vfs.isfile(basename):
-                # is_zipfile() accepts filenames as bytes, but the type stub is incorrect
-                if zipfile.is_zipfile(self.vfs.getfspath(basename)):  # noqa
+                # Look at the candidate through the VFS it lives in: for an
+                # archive nested in another archive getfspath() is a member
+                # name, not a path on disk.
+                with self.vfs.open(basename, "rb") as fp:
+                    is_zip = zipfile.is_zipfile(fp)
+                if is_zip:
                     self.basename = basename
                     self.appendage = appendage
                     return True
